@@ -2,7 +2,7 @@
    Statements only; proofs are `exact` lemmas of Store/BplusProofs.v.
    The specification is the per-table view `table t p` (sorted list of the table's entries) with
    spec_get / spec_put / spec_range / spec_last; it is also what the RocksDB store is compared with. *)
-From QV Require Import Base.Util Store.Bplus Store.BplusProofs Run.StoreRun.
+From QV Require Import Base.Util Store.Bplus Store.BplusProofs Store.BplusReader Run.StoreRun.
 
 Section C14.
   Variable K : Type.
@@ -37,6 +37,19 @@ Section C14.
   Theorem C14_last_refines t p : sorted t ->
     get_last K Val kleb kmin t p = spec_last K Val (table t p).
   Proof. exact (get_last_refines K Val kleb kmin kleb_trans t p). Qed.
+
+  (* the GetAll reader (used by the cache rebuild, by backups and by state transfer): one Read(n) returns the next n
+     entries of the table; Read until exhausted returns the table, each entry once, in key order, for any chunk size *)
+  Hypothesis kmin_le : forall a, kleb kmin a = true.
+  Theorem C14_read_refines t r n : sorted t -> reader_ok K kmin r ->
+    fst (read K Val kleb t r n) = firstn n (pending K Val kleb t r) /\
+    pending K Val kleb t (snd (read K Val kleb t r n)) = skipn n (pending K Val kleb t r) /\
+    reader_ok K kmin (snd (read K Val kleb t r n)).
+  Proof. exact (read_refines K Val kleb kmin kleb_refl kleb_trans kleb_antisym kmin_le t r n). Qed.
+
+  Theorem C14_get_all_refines t p n fuel : sorted t -> (0 < n)%nat -> (length (table t p) < fuel)%nat ->
+    drain K Val kleb t (new_reader K kmin p) n fuel = table t p.
+  Proof. exact (get_all_refines K Val kleb kmin kleb_refl kleb_trans kleb_antisym kmin_le t p n fuel). Qed.
 End C14.
 
 (* Non-vacuity: byte strings under bytes.Compare satisfy the order hypotheses *)
@@ -78,8 +91,16 @@ Proof.
   split; [apply (C14_sorted_invariant bs bs bleb bleb_refl bleb_trans bleb_total bleb_antisym); exact I|reflexivity].
 Qed.
 
+Example C14_reader_premises_hold :
+  (forall a, bleb [] a = true) /\
+  drain bs bs bleb (mutate bs bs bleb [] [(2, [1; 255], [7]); (0, [], [8]); (2, [1], [9]); (3, [171], [1]); (2, [], [5])])
+        (new_reader bs [] 2) 2 4 = [([], [5]); ([1], [9]); ([1; 255], [7])].
+Proof. split; [intros a; reflexivity|reflexivity]. Qed.
+
 Print Assumptions C14_sorted_invariant.
 Print Assumptions C14_mutate_refines.
 Print Assumptions C14_get_refines.
 Print Assumptions C14_range_refines.
 Print Assumptions C14_last_refines.
+Print Assumptions C14_read_refines.
+Print Assumptions C14_get_all_refines.
